@@ -364,6 +364,10 @@ func (c *Constraint) matchesPermanodeTypes() []string {
 			}
 			return sb
 		case "or":
+			if len(sa) == 0 || len(sb) == 0 {
+				// One branch isn't restricted to node types, so neither is the union.
+				return nil
+			}
 			return append(sa, sb...)
 		}
 	}
